@@ -64,6 +64,9 @@ CLAIMED = {
             "Static decision of the structural clauses of C13 (DESIGN section 3): for the seven elements that apply action and reaction in one function, the two applications form a +/- pair on two different bodies with the same force and each body's own arm; "
             "frame adjacency at every parseable rotation/transform product. Magnitudes, and the balance of elements whose two spatial forces are computed separately (LinearBushing, CompliantContact, cables), are NOT decided. "
             "FRAME reads the programmer's monogram names (a false-but-conforming rename would fire; a non-conforming one only lowers coverage)."),
+    "C35": ("FRAME monogram adjacency over the trackers and collision algorithms; REVERSE rules on the mustReverse handling of ContactTrackerSubsystem (mirror-image calls, stored surface order, type-id pair normalisation)",
+            "Static decision of two structural clauses of C35 (DESIGN section 3): frame adjacency at every parseable rotation/transform product or named assignment in the contact trackers (a swapped/dropped ~ or wrong transform is wrong for every non-identity pose), "
+            "and complete, consistent reversal handling between surface order and tracker order. Overlap tests, depths, tolerance bands and mesh traversal are numerical geometry and NOT decided; about a third of the products carry parseable names on both sides."),
 }
 NA = {
  "C01": "numerical identity between O(n) recursions; no clause is visible in the shape of the code",
